@@ -27,7 +27,7 @@ theorem filter_absList_nonempty (q : Msg → Bool) (a : Nat) (t : Track) :
 /-- the conversion of a file of the domain, in closed form -/
 theorem convert_shape (f : File) (t : Track) (h : Dom f t) :
     convert f = .ok ⟨1, f.tf, mkTrack (metaOf t) :: (channelsOf t).map (fun c => mkTrack (chanOf t c))⟩ := by
-  have ht := h.ticks
+  have ht := h.ticks63
   unfold convert
   rw [if_neg h.fmt, h.single]
   simp only
@@ -73,25 +73,47 @@ theorem payload_src (t : Track) :
     payload t = ((absList 0 t).map TE.pair).filter (fun p => p.2 != EOT) := by
   simp [payload, timed, timedFrom_eq]
 
-theorem payload_bucket (t : Track) (sel : Nat × Msg → Bool) (ht : totalTicks t < 4294967296)
+theorem payload_bucket (t : Track) (sel : Nat × Msg → Bool) (hg : Gaps 0 ((absList 0 t).filter (sel ∘ TE.pair)))
     (hn : NoEarlyEOT ((absList 0 t).filter (sel ∘ TE.pair))) :
     payload (mkTrack ((absList 0 t).filter (sel ∘ TE.pair))) = (payload t).filter sel := by
-  have hw : Within 0 (totalTicks t) ((absList 0 t).filter (sel ∘ TE.pair)) := by
-    have := within_absList 0 t
-    rw [Nat.zero_add] at this
-    exact this.filter _
-  rw [payload_mkTrack _ _ hw ht hn, payload_src, ← List.filter_map, List.filter_filter, List.filter_filter]
+  rw [payload_mkTrack _ hg hn, payload_src, ← List.filter_map, List.filter_filter, List.filter_filter]
   apply List.filter_congr
   intro x _
   exact Bool.and_comm _ _
 
-theorem payload_meta (t : Track) (ht : totalTicks t < 4294967296) (he : EOTOnlyLast t) :
+theorem payload_meta (t : Track) (hg : Gaps 0 (metaOf t)) (he : EOTOnlyLast t) :
     payload (mkTrack (metaOf t)) = (payload t).filter offChan :=
-  payload_bucket t offChan ht (noEarly_metaOf t he)
+  payload_bucket t offChan hg (noEarly_metaOf t he)
 
-theorem payload_chan (t : Track) (c : Nat) (ht : totalTicks t < 4294967296) :
+theorem payload_chan (t : Track) (c : Nat) (hg : Gaps 0 (chanOf t c)) :
     payload (mkTrack (chanOf t c)) = (payload t).filter (onChan c) :=
-  payload_bucket t (onChan c) ht (noEarly_chanOf t c)
+  payload_bucket t (onChan c) hg (noEarly_chanOf t c)
+
+theorem pairs_filter (t : Track) (sel : Nat × Msg → Bool) :
+    ((absList 0 t).filter (sel ∘ TE.pair)).map TE.pair = (timed t).filter sel := by
+  simp only [timed, timedFrom_eq]
+  rw [List.filter_map]
+
+theorem Dom.gaps_metaOf {f : File} {t : Track} (h : Dom f t) : Gaps 0 (metaOf t) := by
+  rw [gaps_iff_gapsP]
+  have := pairs_filter t offChan
+  rw [show metaOf t = (absList 0 t).filter (offChan ∘ TE.pair) from rfl, this]
+  exact h.gapsMeta
+
+theorem Dom.gaps_chanOf {f : File} {t : Track} (h : Dom f t) (c : Nat) : Gaps 0 (chanOf t c) := by
+  rw [gaps_iff_gapsP]
+  have := pairs_filter t (onChan c)
+  rw [show chanOf t c = (absList 0 t).filter (onChan c ∘ TE.pair) from rfl, this]
+  exact h.gapsChan c
+
+/-- the old, stronger domain: a source shorter than `2^32` ticks has small gaps on every result track -/
+theorem gaps_of_total (t : Track) (q : TE → Bool) (ht : totalTicks t < 4294967296) :
+    Gaps 0 ((absList 0 t).filter q) := by
+  have hw : Within 0 (totalTicks t) ((absList 0 t).filter q) := by
+    have := within_absList 0 t
+    rw [Nat.zero_add] at this
+    exact this.filter _
+  exact gaps_of_within 0 _ _ hw (by omega)
 
 /-! ## nothing lost, nothing duplicated -/
 
@@ -208,9 +230,32 @@ theorem absList_append (a : Nat) (t u : Track) :
 theorem totalTicks_append (t u : Track) : totalTicks (t ++ u) = totalTicks t + totalTicks u := by
   simp [totalTicks]
 
+/-- the domain as it was stated before (DESIGN §8): a source shorter than `2^32` ticks, whatever its events -/
+theorem Dom.ofTotal {f : File} {t : Track} (hs : f.tracks = [t]) (hf : f.format ≠ 1)
+    (ht : totalTicks t < 4294967296) (he : EOTOnlyLast t) : Dom f t := by
+  refine ⟨hs, hf, by omega, ?_, ?_, he⟩
+  · rw [← pairs_filter t offChan, ← gaps_iff_gapsP]; exact gaps_of_total t _ ht
+  · intro c; rw [← pairs_filter t (onChan c), ← gaps_iff_gapsP]; exact gaps_of_total t _ ht
+
+/-- no event of a track is on a channel ≥ 16 -/
+theorem filter_onChan_ge16 (l : List (Nat × Msg)) (c : Nat) (h : 16 ≤ c) : l.filter (onChan c) = [] := by
+  apply List.filter_eq_nil_iff.2
+  intro p _ hp
+  have : getChannel p.2 = some c := by simpa [onChan] using hp
+  have := getChannel_lt _ _ this
+  omega
+
+/-- the channel part of the domain is a finite condition -/
+theorem gapsChan_of_first16 (t : Track) (h : ∀ c ∈ List.range 16, GapsP 0 ((timed t).filter (onChan c))) :
+    ∀ c, GapsP 0 ((timed t).filter (onChan c)) := by
+  intro c
+  by_cases hc : c < 16
+  · exact h c (List.mem_range.2 hc)
+  · rw [filter_onChan_ge16 _ _ (by omega)]; trivial
+
 /-- a closed source: its end-of-track event arrives on the first result track at its own absolute tick
     (the length of the track is preserved) -/
-theorem timed_meta_closed (t : Track) (ht : totalTicks t < 4294967296) (he : EOTOnlyLast t)
+theorem timed_meta_closed (t : Track) (hg : Gaps 0 (metaOf t)) (he : EOTOnlyLast t)
     (hc : t.isClosed = true) :
     (timed (mkTrack (metaOf t))).getLast? = some (totalTicks t, EOT) := by
   have hn := noEarly_metaOf t he
@@ -226,10 +271,6 @@ theorem timed_meta_closed (t : Track) (ht : totalTicks t < 4294967296) (he : EOT
   have hmeta : metaOf (init ++ [e]) =
       (absList 0 init).filter (fun te => getChannel te.msg == none) ++ [⟨totalTicks (init ++ [e]), EOT⟩] := by
     simp [metaOf, absList_append, absList, List.filter_append, hmsg, getChannel_EOT, totalTicks]
-  have hw : Within 0 (totalTicks (init ++ [e])) (metaOf (init ++ [e])) := by
-    have := within_absList 0 (init ++ [e])
-    rw [Nat.zero_add] at this
-    exact this.filter _
   unfold mkTrack
   rw [rebuild_eq [] 0 _ rfl hn, List.nil_append]
   have hclosed : Track.isClosed (deltas 0 (metaOf (init ++ [e]))) = true := by
@@ -241,7 +282,7 @@ theorem timed_meta_closed (t : Track) (ht : totalTicks t < 4294967296) (he : EOT
     | none => rw [hl] at this; cases this
     | some x => rw [hl] at this; simp at this; simp [this]
   simp only [Track.close, hclosed, if_true, timed]
-  rw [timedFrom_deltas 0 _ _ hw (by omega), hmeta]
+  rw [timedFrom_deltas_gaps 0 _ hg, hmeta]
   simp [TE.pair]
 
 end Midi.Convert
